@@ -22,7 +22,11 @@ ASSUMPTIONS = [
     "string operands compared with a terminal of a non-string type are canonised by libyang first (set_comp_canonize, deliberate, finding F355): "
     "the engine does the same (switch canonStr) for int*/uint*/decimal64/bits/identityref terminals and leafrefs to them through the value models of "
     "property C03, keyed by `#type` facts; generated strings include valid non-canonical lexical forms (xpcomp.NONCANON_POOL, Gen.noncanon_of); "
-    "union / instance-identifier / binary / empty terminals are not in the test schema",
+    "a union terminal canonises by the first member type that accepts the STRING (value.realtype of a union value is the union type); the canoniser "
+    "of an instance-identifier terminal is the identity in the engine: generated strings compared with such a leaf are canonical paths or no paths; "
+    "binary / empty terminals are not in the test schema",
+    "deref() of an instance-identifier: the engine parses the canonical value of the dump (`/mod:name[key='v']…[.='v']`, no positional predicates) and "
+    "walks the XML view; generated values are paths to nodes of the generated tree (with key / value predicates) and dangling paths (F356)",
     "schema facts of the engine (identity DAG, enum values, leafref paths, value types) are derived by python from the YANG text of the test modules "
     "(xpcomp.yang_facts, a statement parser of its own; libyang is not asked) and travel as `#` header lines of the dump in every eval request; "
     "deref() is modelled for leafrefs whose path has no predicate; re-match() patterns stay inside the XSD subset on which the XsdRe model of C18 "
@@ -52,9 +56,9 @@ TRUSTED = ["harness/api_xpath.c, harness/wb_xpath.c",
 
 HARNESS = "api_xpath"
 COMP = "xpath"
-ALL = 32767
+ALL = 131071
 # Quirks bit -> finding
-QBITS = {0: "F38", 1: "F39", 2: "F40", 3: "F41", 4: "F250", 5: "F251", 6: "F252", 7: "F253", 8: "F254", 9: "F255", 10: "F256", 11: "F261", 12: "F264", 13: "F355", 14: "F354"}
+QBITS = {0: "F38", 1: "F39", 2: "F40", 3: "F41", 4: "F250", 5: "F251", 6: "F252", 7: "F253", 8: "F254", 9: "F255", 10: "F256", 11: "F261", 12: "F264", 13: "F355", 14: "F354", 15: "F353", 16: "F356"}
 
 
 def classify(component, what, case):
@@ -107,13 +111,31 @@ def schema_line(i):
     return "%s %s schema %s %s" % (i, COMP, hexs(X.YANG_A), hexs(X.YANG_B))
 
 
+_REPAIRS = None
+
+
+def source_repairs():
+    """{finding: the source tree already has its repair}, read off xpath.c (tools/extractors/xpath.py: yang_fn_repairs) — the switch of
+    such a finding is off even while its status is still `known`, so the check is right with and without the candidate fix."""
+    global _REPAIRS
+    if _REPAIRS is None:
+        import importlib.util, os
+        here = os.path.dirname(os.path.dirname(os.path.abspath(__file__)))
+        spec = importlib.util.spec_from_file_location("extractors_xpath", os.path.join(here, "extractors", "xpath.py"))
+        mod = importlib.util.module_from_spec(spec)
+        spec.loader.exec_module(mod)
+        _REPAIRS = mod.yang_fn_repairs()
+    return _REPAIRS
+
+
 def live_mask(cx):
     """switches of the engine that stand for a deviation still present in the implementation: findings with status `known`.
     A repaired finding (status `fixed`) turns its switch off, so the engine demands the XPath 1.0 behaviour there again."""
     m = 0
+    rep = source_repairs()
     for bit, fid in QBITS.items():
         f = cx.findings.get(fid)
-        if f is not None and f.get("status") == "known":
+        if f is not None and f.get("status") == "known" and not rep.get(fid, False):
             m |= 1 << bit
     return m
 
@@ -356,7 +378,8 @@ def run(cx):
             c = rng.randrange(0, len(nodes) + 1) if nodes else 0
             g.nonroot = c != 0
             y = rng.random()
-            e = (g.yang_bool(2, cursor_of(nodes, c)) if y < 0.7 else
+            e = (g.yang_bool(2, cursor_of(nodes, c)) if y < 0.6 else
+                 g.bit_is_set(2, cursor_of(nodes, c)) if y < 0.7 else
                  X.fn("enum-value", g.typed_path([X.ENUM, X.ENUM2, X.INT])[1]) if y < 0.8 else
                  rng.choice([lambda d: d, lambda d: X.fn("count", d), lambda d: ("path", ("E", d), [X.st(X.NODE, "parent"), X.st(X.STAR)])])(g.deref(2, cursor_of(nodes, c))))
             items.append(("eval", c, e, {"text": X.render(e, rng)}))
@@ -423,7 +446,11 @@ def witnesses(cx):
     for (fid, xml, c, e) in X.CRASH_WITNESSES:
         lines = [schema_line("s"), "t %s load x %s" % (COMP, hexs(xml)), "w %s eval %d %s -" % (COMP, c, hexs(X.render(e)))]
         cx.count(("witness", fid, X.prefix(e)), True, "witness:" + fid)
-        cx.run_impl(HARNESS, lines, component=COMP)      # a sanitizer abort is recorded as a failure and classified by its report
+        ri = cx.run_impl(HARNESS, lines, component=COMP)      # a sanitizer abort is recorded as a failure and classified by its report
+        if source_repairs().get(fid) and ri.get("w") is not None and ri.get("w")[:2] != ["err", "Valid"]:
+            # repaired source (fixes/F353.diff): a clean LY_EVALID is what the engine with the switch off says (Eval.derivedFn)
+            cx.fail(COMP, "repaired xpath_derived_: unprefixed identity without a module must be refused with LY_EVALID",
+                    {"witness_repaired": fid, "expr": X.render(e), "impl": ri.get("w")})
 
 
 # ----------------------------------------------------------------------------------------------------------------------
